@@ -671,3 +671,62 @@ pub proof fn lemma_announced(value: u64, multiple: u8)
     else if fb == 3 { assert(16384 * fb == 49152); }
     else { assert(16384 * fb == 65536); }
 }
+
+// ===== 17 OCTET STRING, 11.9.3.8 fragmentation =====
+
+/// 11.9.3.5 - 11.9.3.8.4: n octets with an unconstrained length: (header + 16K-blocks)* + final header (< 16K) + rest.
+/// A string whose length is a multiple of 16K ends with the header of an empty fragment.
+pub open spec fn x691_frag_octets(s: Seq<u8>) -> Seq<bool>
+    decreases s.len()
+{
+    let n = s.len() as u64;
+    if s.len() < 16384 {
+        x691_len_short(n) + bits_of(s)
+    } else if s.len() > u64::MAX {
+        Seq::empty()
+    } else {
+        let a = len_announced(n) as int;
+        if 16384 <= a <= s.len() {
+            x691_len_general(n) + bits_of(s.subrange(0, a)) + x691_frag_octets(s.subrange(a, s.len() as int))
+        } else { Seq::empty() }   // unreachable: 16384 <= len_announced(n) <= n
+    }
+}
+
+pub open spec fn octets_in_profile(lb: Option<u64>, ub: Option<u64>) -> bool {
+    (lb is None && ub is None) || len_constrained(lb, ub)
+}
+
+/// 17: OCTET STRING with SIZE (lb..ub[, ...])
+pub open spec fn x691_octets(lb: Option<u64>, ub: Option<u64>, ext: bool, s: Seq<u8>) -> Seq<bool>
+    recommends octets_in_profile(lb, ub), ext || (len_lb(lb) <= s.len() <= len_ub(ub))
+{
+    let n = s.len() as u64;
+    let out = n < len_lb(lb) || n > len_ub(ub);
+    let e = if ext { seq![out] } else { Seq::<bool>::empty() };
+    if out { e + x691_frag_octets(s) }                                                  // 17.3
+    else if len_ub(ub) == 0 { e }                                                       // 17.5
+    else if lb is Some && lb == ub && len_ub(ub) < 65536 { e + bits_of(s) }             // 17.6, 17.7
+    else if lb is None && ub is None { e + x691_frag_octets(s) }                        // 17.8, unconstrained length
+    else { e + x691_len(lb, ub, n) + bits_of(s) }                                       // 17.8, constrained length
+}
+
+pub proof fn lemma_frag_unfold(s: Seq<u8>)
+    requires s.len() <= u64::MAX
+    ensures
+        s.len() < 16384 ==> x691_frag_octets(s) == x691_len_short(s.len() as u64) + bits_of(s),
+        s.len() >= 16384 ==> ({
+            let a = len_announced(s.len() as u64) as int;
+            16384 <= a <= s.len() && a <= 65536 &&
+            x691_frag_octets(s) == x691_len_general(s.len() as u64) + bits_of(s.subrange(0, a)) + x691_frag_octets(s.subrange(a, s.len() as int))
+        }),
+{
+    if s.len() >= 16384 {
+        let n = s.len() as u64;
+        let m: u8 = (if n / 16384 >= 4 { 4u64 } else { n / 16384 }) as u8;
+        lemma_announced(n, m);
+    }
+}
+
+pub proof fn lemma_bits_of_len(s: Seq<u8>)
+    ensures bits_of(s).len() == s.len() * 8
+{ }
